@@ -12,7 +12,7 @@ SPEC = {
         # one black-box test package, three processes so that the quick tier runs them side by side
         _bin("c13-nist", "^TestC13(P384|GroupNIST)$"),
         _bin("c13-edwards", "^TestC13(Goldilocks|GoldilocksLowOrder|FourQ|Ristretto)$"),
-        _bin("c13-bls", "^TestC13(BLSGroups|Pairing|HashToGroup)$"),
+        _bin("c13-bls", "^TestC13(BLSGroups|Pairing|PairingConcurrent|HashToGroup)$"),
         # white-box: the internal edwards25519 point type of sign/ed25519
         {"name": "c13-ed25519", "pkg": "./sign/ed25519", "run": "^TestC13", "whitebox": True, "configs": _CFGS,
          "quick_configs": ["default"], "shards": {"quick": 1, "thorough": 4}},
